@@ -116,7 +116,10 @@ func (s *fsess) dump() string {
 		blkTok(st.Prev), blkTok(st.CurBlock), b2i(st.CurHashSet), st.HfqLen)
 }
 
+var sessFails int
+
 func (s *fsess) fail(what string) {
+	sessFails++
 	s.run.Fail(what, map[string]interface{}{"session": append([]string{}, s.ops...)})
 }
 
@@ -125,6 +128,9 @@ func (s *fsess) fail(what string) {
 // block) this is the known finding C17-header-not-bound-to-id; anywhere else it is a violation.
 func (s *fsess) failOrder(what string) {
 	rep := map[string]interface{}{"session": append([]string{}, s.ops...)}
+	if !s.forged {
+		sessFails++
+	}
 	if s.forged {
 		s.run.FailKnown(what+" (a peer altered the header of a block and kept its id)", classForgedNo, rep)
 		return
@@ -569,7 +575,7 @@ func (s *fsess) fairPhase() {
 }
 
 func fetchSessions(run *vh.Run, n int) {
-	for i := 0; i < n; i++ {
+	for i := 0; i < n && sessFails < 12; i++ {
 		s := newFsess(run, i)
 		if s.stopped {
 			run.Count("fetch-session:end=" + s.stopClass)
